@@ -1077,7 +1077,7 @@ def _tail_helper_body(model: Model, fi: FuncInfo, body: List[ast.stmt], caller_n
     if n_sites == 0 and h.cls is not None and h.cls is not fi.cls:
         # a method of a private record class: its call sites are the `x.name(..)` calls of the package
         n_sites = sum(1 for g_ in model.funcs.values() for c_ in ast.walk(g_.node) if isinstance(c_, ast.Call) and isinstance(c_.func, ast.Attribute) and c_.func.attr == h.name and g_.parent_func is None)
-    small = sum(1 for x in ast.walk(h.node) if isinstance(x, ast.stmt)) <= 8 and not any(c_ is h0 for c_, _cl, _sk in call_sites_of(model, h0))
+    small = sum(1 for x in ast.walk(h.node) if isinstance(x, ast.stmt) and not (isinstance(x, ast.Expr) and isinstance(x.value, ast.Constant))) <= 12 and not any(c_ is h0 for c_, _cl, _sk in call_sites_of(model, h0))
     if (n_sites != 1 and not small) or (len(h.pos_params) - skip != len(call.args) and not h.node.args.vararg):
         return None
     a = h.node.args
